@@ -80,3 +80,89 @@ package notify
 //@   loop 2 invariant !ret("Integration).SendResolved") ==> (forall i int :: 0 <= i && i < len(sent) ==> sent[i] != nil && !resolvedAtN(sent[i], first("time.Now")))
 //@   loop 2 invariant !ret("Integration).SendResolved") ==> called("time.Now") || len(sent) == 0
 //@   noeffect Integration).Notify RecordEvent Integration).SendResolved Integration).String
+
+// ---- C20: text truncation. (That a truncated string ends on a code-point boundary is a property of the string
+// contents, which are uninterpreted here; what is proved is the size bound, the flag and - first of all - that the
+// functions do not panic.)
+//@ func TruncateInRunes
+//@   props C20
+//@   requires n >= 0
+//@   ensures [fits] nrunes(result0) <= n || (nrunes(s) <= n)
+//@   ensures [unchanged-if-fits] nrunes(s) <= n ==> result0 == s && !result1
+//@   ensures [flag] nrunes(s) > n ==> result1
+//@ func TruncateInBytes
+//@   props C20
+//@   requires n >= 0
+//@   ensures [fits] len(result0) <= n
+//@   ensures [unchanged-if-fits] len(s) <= n ==> result0 == s && !result1
+//@   ensures [flag] len(s) > n ==> result1
+//@   after call strings.Repeat assume len(res0) == n
+//@   loop 1 invariant 0 <= len(truncatedRunes) && len(truncatedRunes) <= len(r) && base(truncatedRunes) == base(r)
+//@   noeffect strings.Repeat
+
+// ---- C20 (+C02/C04): the pipeline combinators.
+// A MultiStage runs its stages in list order, each only while there are alerts left, and stops at the first error
+// (so the log stage after the retry stage is reached only after the delivery succeeded).
+//@ func (MultiStage).Exec
+//@   props C20 C02
+//@   nosafe
+//@   at call Stage).Exec assert [in-list-order] count("Stage).Exec") < len(ms) && arg0 == ms[count("Stage).Exec")]
+//@   at call Stage).Exec assert [stop-at-first-error] !called("Stage).Exec") || ret2("Stage).Exec") == nil
+//@   at call Stage).Exec assert [not-on-empty-batch] len(arg3) > 0
+//@   ensures [error-propagates] called("Stage).Exec") && ret2("Stage).Exec") != nil ==> result2 == ret2("Stage).Exec") && result1 == nil
+//@   ensures [success-means-all-ran] result2 == nil && result1 != nil ==> count("Stage).Exec") == len(ms)
+//@   loop 1 invariant rangeindex < len(ms) && count("Stage).Exec") == rangeindex + 1 && (!called("Stage).Exec") || ret2("Stage).Exec") == nil)
+//@   noeffect Stage).Exec
+
+// per integration of a receiver: wait for the cluster position, de-duplicate against the log, deliver with retries,
+// and only then record the notification - in this order.
+//@ func createReceiverStage
+//@   props C20 C04
+//@   nosafe
+//@   ensures [one-pipeline-per-integration] typeis(result, FanoutStage) && len(unbox(result, FanoutStage)) == len(integrations)
+//@   ensures [stage-order] forall k int :: 0 <= k && k < len(integrations) ==> (typeis(unbox(result, FanoutStage)[k], MultiStage)
+//@             && len(unbox(unbox(result, FanoutStage)[k], MultiStage)) == 4
+//@             && typeis(unbox(unbox(result, FanoutStage)[k], MultiStage)[0], *ClusterWaitStage)
+//@             && typeis(unbox(unbox(result, FanoutStage)[k], MultiStage)[1], *DedupStage)
+//@             && typeis(unbox(unbox(result, FanoutStage)[k], MultiStage)[2], *RetryStage)
+//@             && typeis(unbox(unbox(result, FanoutStage)[k], MultiStage)[3], *SetNotifiesStage))
+//@   loop 1 invariant rangeindex < len(integrations) && len(fs) == rangeindex + 1 && (fs == nil || fresh(fs))
+//@   loop 1 invariant forall k int :: 0 <= k && k <= rangeindex ==> typeis(fs[k], MultiStage) && len(unbox(fs[k], MultiStage)) == 4
+//@   loop 1 invariant forall k int :: 0 <= k && k <= rangeindex ==> typeis(unbox(fs[k], MultiStage)[0], *ClusterWaitStage)
+//@   loop 1 invariant forall k int :: 0 <= k && k <= rangeindex ==> typeis(unbox(fs[k], MultiStage)[1], *DedupStage)
+//@   loop 1 invariant forall k int :: 0 <= k && k <= rangeindex ==> typeis(unbox(fs[k], MultiStage)[2], *RetryStage)
+//@   loop 1 invariant forall k int :: 0 <= k && k <= rangeindex ==> typeis(unbox(fs[k], MultiStage)[3], *SetNotifiesStage)
+//@   loop 1 invariant forall k int :: 0 <= k && k <= rangeindex ==> allocated(unbox(fs[k], MultiStage)) && base(unbox(fs[k], MultiStage)) != base(fs)
+//@   noeffect Integration).Name Integration).Index NewClusterWaitStage NewDedupStage NewRetryStage NewSetNotifiesStage
+//@   after call NewClusterWaitStage assume res0 != nil
+//@   after call NewDedupStage assume res0 != nil
+//@   after call NewRetryStage assume res0 != nil
+//@   after call NewSetNotifiesStage assume res0 != nil
+
+// the fan-out hands every integration the same batch and returns it unchanged (goroutines abstracted)
+//@ func (FanoutStage).Exec
+//@   props C20
+//@   abstract
+//@   nosafe
+//@   ensures [returns-input] result1 == alerts && result0 == ctx
+
+// C04/C20: the notification is recorded with an expiry of twice the repeat interval
+//@ func (SetNotifiesStage).Exec
+//@   props C04 C20
+//@   nosafe
+//@   after call Tracer).Start assume res0 != nil && res1 != nil
+//@   at call NotificationLog).Log assert [expiry-twice-repeat] called("RepeatInterval") && arg6 == 2 * ret("RepeatInterval")
+//@   at call NotificationLog).Log assert [logs-what-was-sent] arg3 == ret("FiringAlerts") && arg4 == ret("ResolvedAlerts") && arg1 == n.recv
+//@   ensures [returns-batch] called("NotificationLog).Log") ==> result1 == alerts && result2 == ret("NotificationLog).Log")
+//@   noeffect NotificationLog).Log RepeatInterval FiringAlerts ResolvedAlerts GroupKey NflogStore
+
+// C20: classification of an HTTP response: 2xx is success (no error, no retry); anything else is an error that is
+// retried iff it is 5xx or one of the configured retry codes.
+//@ func (*Retrier).Check
+//@   props C20
+//@   requires r != nil
+//@   after call slices.Contains assume res0 == (exists i int :: 0 <= i && i < len(r.RetryCodes) && r.RetryCodes[i] == statusCode)
+//@   ensures [success] statusCode / 100 == 2 ==> !result0 && result1 == nil
+//@   ensures [failure] statusCode / 100 != 2 ==> result1 != nil
+//@   ensures [retry-iff] statusCode / 100 != 2 ==> result0 == (statusCode / 100 == 5 || (exists i int :: 0 <= i && i < len(r.RetryCodes) && r.RetryCodes[i] == statusCode))
+//@   noeffect CustomDetailsFunc readAll
